@@ -263,9 +263,12 @@ fn run_one(sc: &Value) {
             free.insert(tramp_page);
         }
         interpose::QUIET_FAILS.store(true, SeqCst);
+        // a placement that is only dictated (no occupancy pattern of its own): hints that are not free are answered with the
+        // dictated page, as a kernel may answer any hint -- the placement is reached whatever pages the allocator asks for
+        let pure = sc.get("free_deltas").is_none() && sc.get("occupied").is_none();
         interpose::set_policy(Some(Policy {
             free: Some(free),
-            occupied: u(sc, "occupied") as u8,
+            occupied: if pure { 4 } else { u(sc, "occupied") as u8 },
             elsewhere: (page(func_addr) as i64 + i(sc, "elsewhere_delta") * 4096) as u64,
             occ_budget: u(sc, "occ_budget") as usize,
             ..Default::default()
@@ -550,7 +553,7 @@ fn run_async(sc: &Value) {
     let mut free = BTreeSet::new();
     free.insert(tramp_page);
     interpose::QUIET_FAILS.store(true, SeqCst);
-    interpose::set_policy(Some(Policy { free: Some(free), ..Default::default() }));
+    interpose::set_policy(Some(Policy { free: Some(free), occupied: 4, ..Default::default() }));
     let mut inj = in_lib(InjectorPP::new);
     let r = catch_unwind(AssertUnwindSafe(|| {
         in_lib(|| unsafe {
